@@ -167,6 +167,13 @@ func Eq(a, b *Term) *Term {
 	if a == b || a.String() == b.String() {
 		return tTrue
 	}
+	// lift equality with a constant through an if-then-else with constant branches
+	if a.Op == "ite" && b.IsInt() && (a.Args[1].IsInt() || a.Args[2].IsInt()) {
+		return Ite(a.Args[0], Eq(a.Args[1], b), Eq(a.Args[2], b))
+	}
+	if b.Op == "ite" && a.IsInt() && (b.Args[1].IsInt() || b.Args[2].IsInt()) {
+		return Ite(b.Args[0], Eq(a, b.Args[1]), Eq(a, b.Args[2]))
+	}
 	return mk("=", SBool, a, b)
 }
 func Ne(a, b *Term) *Term { return Not(Eq(a, b)) }
@@ -264,6 +271,18 @@ func Ite(c, a, b *Term) *Term {
 		if a.IsFalse() && b.IsTrue() {
 			return Not(c)
 		}
+		if a.IsTrue() {
+			return Or(c, b)
+		}
+		if a.IsFalse() {
+			return And(Not(c), b)
+		}
+		if b.IsTrue() {
+			return Or(Not(c), a)
+		}
+		if b.IsFalse() {
+			return And(c, a)
+		}
 	}
 	return mk("ite", a.Sort, c, a, b)
 }
@@ -359,6 +378,12 @@ func cmp(op string, a, b *Term) *Term {
 	}
 	if a.String() == b.String() {
 		return Bool(op == "<=" || op == ">=")
+	}
+	if a.Op == "ite" && b.IsInt() && a.Args[1].IsInt() && a.Args[2].IsInt() {
+		return Ite(a.Args[0], cmp(op, a.Args[1], b), cmp(op, a.Args[2], b))
+	}
+	if b.Op == "ite" && a.IsInt() && b.Args[1].IsInt() && b.Args[2].IsInt() {
+		return Ite(b.Args[0], cmp(op, a, b.Args[1]), cmp(op, a, b.Args[2]))
 	}
 	return mk(op, SBool, a, b)
 }
